@@ -16,10 +16,10 @@ import (
 // and the selection of crash / failure points.
 type C08Case struct {
 	Pre     Program `json:"pre"`
-	Dirty   bool    `json:"dirty"`   // pre-state captured while the replica is open
-	Op      Op      `json:"op"`      // operation under test (selectors resolved against the pre-state model)
-	Preload bool    `json:"preload"` // victim opens with preload
-	Sample  []int   `json:"sample"`  // indexes (mod #calls) of the boundaries/calls to exercise; empty = all
+	Dirty   bool    `json:"dirty"`          // pre-state captured while the replica is open
+	Op      Op      `json:"op"`             // operation under test (selectors resolved against the pre-state model)
+	Preload bool    `json:"preload"`        // victim opens with preload
+	Sample  []int   `json:"sample"`         // indexes (mod #calls) of the boundaries/calls to exercise; empty = all
 	Then    string  `json:"then,omitempty"` // follow-up after the operation in the failed-call runs: "" | close | touchmeta | touchclose
 	All     bool    `json:"all"`
 }
@@ -208,7 +208,13 @@ type c08Stats struct {
 	skipped                                     string
 }
 
+// dirMarker: opens of files inside the replica directory (not /proc, /sys, the binary ...).
+func dirMarker(dir string) string { return "\"" + dir + "/" }
+
 func errnosFor(c SysCall) []string {
+	if c.Role == "open-existing" {
+		return []string{"EIO"}
+	}
 	if c.Name == "mkdir" || c.Name == "mkdirat" {
 		return nil // mkdir of the existing replica directory can only answer EEXIST
 	}
@@ -372,7 +378,9 @@ func runC08Case(cc C08Case) (*Fail, c08Stats, error) {
 	}
 	var calls []SysCall
 	for _, c := range rec.Calls {
-		if c.isMutating() {
+		// plain opens of existing files change nothing (no crash point of their own),
+		// but they are file-system calls that can fail: fault points
+		if c.isMutating() || (c.Role == "open-existing" && strings.Contains(c.Args, dirMarker(work))) {
 			calls = append(calls, c)
 		}
 	}
@@ -419,23 +427,25 @@ func runC08Case(cc C08Case) (*Fail, c08Stats, error) {
 		if !pick[i] {
 			continue
 		}
-		// ---- process death on entry to call i
-		if err := fresh(); err != nil {
-			return nil, stt, err
-		}
-		inj := fmt.Sprintf("%s:signal=SIGKILL:when=%d", c.Name, c.Ordinal)
-		vr, err := runVictim(work, vop, pre.MaxChain, inj)
-		if err != nil {
-			return nil, stt, err
-		}
-		stt.victimRuns++
-		stt.crashPoints++
-		if !vr.Died {
-			return nil, stt, fmt.Errorf("SIGKILL injection %s did not kill the victim (result %q); recorded %d calls", inj, vr.Result, len(calls))
-		}
-		for _, preload := range []bool{true, false} {
-			if err := checkCrashState(work, base, preload, cc.Op.K, vop, preM, postM, expectRefused, cLo, cHi); err != "" {
-				return fail(sig0+"|crash-before:"+c.Role+"|state-damaged", fmt.Sprintf("process death on entry to call %d/%d %s(%s) of %+v; reopening (preload=%v): %s", i+1, len(calls), c.Name, tailStr(c.Args, 120), vop, preload, err), "C08"), stt, nil
+		// ---- process death on entry to call i (the state before a read-only open is the state after the previous call: no crash point)
+		if c.isMutating() {
+			if err := fresh(); err != nil {
+				return nil, stt, err
+			}
+			inj := fmt.Sprintf("%s:signal=SIGKILL:when=%d", c.Name, c.Ordinal)
+			vr, err := runVictim(work, vop, pre.MaxChain, inj)
+			if err != nil {
+				return nil, stt, err
+			}
+			stt.victimRuns++
+			stt.crashPoints++
+			if !vr.Died {
+				return nil, stt, fmt.Errorf("SIGKILL injection %s did not kill the victim (result %q); recorded %d calls", inj, vr.Result, len(calls))
+			}
+			for _, preload := range []bool{true, false} {
+				if err := checkCrashState(work, base, preload, cc.Op.K, vop, preM, postM, expectRefused, cLo, cHi); err != "" {
+					return fail(sig0+"|crash-before:"+c.Role+"|state-damaged", fmt.Sprintf("process death on entry to call %d/%d %s(%s) of %+v; reopening (preload=%v): %s", i+1, len(calls), c.Name, tailStr(c.Args, 120), vop, preload, err), "C08"), stt, nil
+				}
 			}
 		}
 		// ---- that call fails
